@@ -228,10 +228,14 @@ Qed.
 
 Lemma assign_frame x e c b :
   frame c (cx match ev c e with
-              | EOk v => mk SDone (set_locals c (dict_set x v (locals c))) b
+              | EOk v => if has_forloop v then mk SUnmodelled c b
+                         else mk SDone (set_locals c (dict_set x v (locals c))) b
               | r => mk (of_eres_status r) c b
               end).
-Proof. destruct (ev c e); simpl; try apply frame_refl. apply frame_set_locals. Qed.
+Proof.
+  destruct (ev c e) as [v| | |]; simpl; try apply frame_refl.
+  destruct (has_forloop v); simpl; [apply frame_refl|apply frame_set_locals].
+Qed.
 
 Lemma capture_frame x body c b :
   frame c (cx (let r := block g rec body c {| text := []; null := false |} in
